@@ -11,7 +11,7 @@ import Gonuts.Model.Mint
     (answers every matched `OPTIONS` with 200 and an empty body, *before* the handler);
   * per handler: the `{method}` variable must be `bolt11` (else `PaymentMethodNotSupportedErr`),
     `decodeJsonReqBody` (content type, syntax error, type error, empty body = EOF, other), the NUT-19 cache lookup of
-    `/v1/swap` and `/v1/mint/bolt11` (`req.Method + req.URL.String() + string(body)`), the operation
+    `/v1/swap` and `/v1/mint/bolt11` (`requestCacheKey`: method, URL and body separated by NUL bytes), the operation
     (`Model.Mint.applyOp`), the handler's own error mapping (`mapErr`: which internal codes are replaced by the
     constant `StandardErr`), `writeErr` (status 400 + `json.Marshal(err)`), the success tree of each response type;
   * `Cache` (`Get` returns an expired item once more and deletes it, `Set` stores only while
@@ -508,8 +508,11 @@ inductive Info where
   | info
   | unmodelled
 
-/-- NUT-19 cache key: `req.Method + req.URL.String() + string(body)`. -/
-def Request.key (r : Request) : String := r.method ++ r.url ++ r.body
+/-- The separator of the cache key's parts: one NUL byte. -/
+def keySep : String := "\x00"
+
+/-- NUT-19 cache key (`requestCacheKey`, fix 65f9524): `req.Method + "\x00" + req.URL.String() + "\x00" + string(body)`. -/
+def Request.key (r : Request) : String := r.method ++ keySep ++ r.url ++ keySep ++ r.body
 
 def isCached : Handler → Bool
   | .swapRequest | .mintTokensRequest => true
